@@ -230,6 +230,10 @@ class ExprMixin:
                 acc = None
                 for v in e.values:
                     x = self.ev(v, fr)
+                    if z3.is_expr(x) and z3.is_bool(x):
+                        xs = z3.simplify(x)
+                        if z3.is_true(xs) or z3.is_false(xs):
+                            x = z3.is_true(xs)          # a constant operand short-circuits like a Python bool (later operands are not evaluated)
                     if not (isinstance(x, bool) or (z3.is_expr(x) and z3.is_bool(x))):
                         raise NeedFork()
                     if isinstance(x, bool):
@@ -254,6 +258,10 @@ class ExprMixin:
                 acc = None
                 for v in e.values:
                     x = self.ev(v, fr)
+                    if z3.is_expr(x) and z3.is_bool(x):
+                        xs = z3.simplify(x)
+                        if z3.is_true(xs) or z3.is_false(xs):
+                            x = z3.is_true(xs)          # a constant operand short-circuits like a Python bool (later operands are not evaluated)
                     if not (isinstance(x, bool) or (z3.is_expr(x) and z3.is_bool(x))):
                         raise NeedFork()
                     if isinstance(x, bool):
